@@ -11,6 +11,10 @@ import Ufw.Tie.RegTable
 #print axioms Ufw.Props.C05.get_value_wf
 #print axioms Ufw.Props.C05.bit_op_is_set
 #print axioms Ufw.Props.C05.history_preserves_sat
+#print axioms Ufw.Props.C05.block_write_preserves_sat
 #print axioms Ufw.Props.C05.block_write_refused_unchanged
+#print axioms Ufw.Props.C05.block_write_keeps_layout
+#print axioms Ufw.Props.C05.inv_set
+#print axioms Ufw.Props.C05.history_with_block_writes
 #print axioms Ufw.Tie.RegTable.const_rds_size
 #print axioms Ufw.Tie.RegTable.const_enums
